@@ -3,6 +3,8 @@ package main
 // C05: 1005/1006 decoding and display.
 
 import (
+	"math"
+	"strconv"
 	"encoding/hex"
 	"fmt"
 	"log/slog"
@@ -73,6 +75,14 @@ func coordVal(r *rand.Rand) int64 {
 
 func genC05(c *Ctx, emit func(class, op string)) {
 	r := c.Rng
+	// the float arithmetic of the display against the exact model: boundaries, small negatives,
+	// every value in a window around zero, random values of the whole 38-bit range
+	for _, n := range []int64{0, 1, -1, 5, -5, 9999, -9999, 10000, -10000, 1<<37 - 1, -(1 << 37), 65535, 4999, 5000, 5001} {
+		emit("display-arithmetic", fmt.Sprintf("disp4 %d", n))
+	}
+	for i := 0; i < c.N(400, 20000); i++ {
+		emit("display-arithmetic", fmt.Sprintf("disp4 %d", coordVal(r)))
+	}
 	for i := 0; i < c.N(600, 20000); i++ {
 		six := i%2 == 1
 		typ := int64(1005)
@@ -129,6 +139,13 @@ func oracleC05(op string, o *Obs) string {
 		return "decoder or display panicked: " + o.Panic
 	}
 	t := strings.Fields(op)
+	if t[0] == "disp4" {
+		n, _ := strconv.ParseInt(t[1], 10, 64)
+		if f := strings.Fields(o.Line); len(f) != 5 || f[4] != dec4(n) {
+			return "float64(n)*0.0001 printed with %.4f gives " + o.Line + ", the exact decimal is " + dec4(n)
+		}
+		return ""
+	}
 	if i := strings.Index(op, " exp="); i >= 0 {
 		exp, _ := hex.DecodeString(strings.Fields(op[i+5:])[0])
 		if o.Line != string(exp) {
@@ -196,9 +213,22 @@ func init() {
 			m.AntennaRefX, m.Ignored2, m.AntennaRefY, m.Ignored3, m.AntennaRefZ, m.AntennaHeight)
 		return &Obs{Line: line, Data: &baseObs{m.String(), mi.String()}, Branch: "ok"}
 	}
+	// disp4 <n>: the display arithmetic itself — float64(n) * 0.0001 on the hardware and fmt's %.4f,
+	// against the exact binary64 model (IEEE fields and text)
+	opTable["disp4"] = func(t []string) *Obs {
+		n, _ := strconv.ParseInt(t[1], 10, 64)
+		const scaleFactor = 0.0001
+		x := float64(n) * scaleFactor
+		bits := math.Float64bits(x)
+		neg, e, mant := bits>>63 == 1, int((bits>>52)&0x7ff), bits&(1<<52-1)
+		if e != 0 {
+			mant |= 1 << 52
+		}
+		return &Obs{Line: fmt.Sprintf("f64 %v %d %d %s", neg, e, mant, fmt.Sprintf("%.4f", x)), Branch: "disp4"}
+	}
 	props["C05"] = &Prop{
 		Rule: "ops base5/base6 <frame> [exp=]: well-formed 1005/1006 messages from an independent encoder (coordinates at -2^37, 2^37-1, -1, 0, near 4th-decimal rounding boundaries, random; " +
-			"heights 0, 65535, random), with and without trailing payload bytes; decode compared with the encoded values and the display (both log levels) with exact integer decimals; " +
+			"heights 0, 65535, random), with and without trailing payload bytes; op disp4 <n>: float64(n)*0.0001 on the hardware and fmt %.4f against the exact binary64 model (IEEE sign/exponent/significand and text); decode compared with the encoded values and the display (both log levels) with exact integer decimals; " +
 			"every truncation length and wrong types must be rejected; non-trivial = well-formed message; distinct = distinct op line",
 		Gen: genC05, Oracle: oracleC05,
 		NonTrivial: func(op string, o *Obs) bool { return strings.Contains(op, " exp=") },
